@@ -96,6 +96,8 @@ class Session:
             f = f.f_back
         d.calls.append((statement, dict(params), site))
         mode = d.deviate.get(idx, d.default_mode)
+        if mode == 'raise':
+            raise RuntimeError('injected driver fault (transient database error)')
         return Result(mode)
 
 
@@ -113,6 +115,17 @@ class Driver:
 
     def verify_connectivity(self):
         pass
+
+
+class _NoSleep:
+    """the retry loops of the importer sleep between attempts; the harness owns that clock"""
+    def __getattr__(self, name):
+        import time
+        return (lambda *a, **k: None) if name == 'sleep' else getattr(time, name)
+
+
+import fim.graph.neo4j_property_graph as _npg
+_npg.time = _NoSleep()
 
 
 def make_importer(tmpdir):
